@@ -8,4 +8,5 @@ import SwcVerif.Model.AlgoRunBranches
 import SwcVerif.Model.AlgoRunRedirect
 import SwcVerif.Model.AlgoRunAssemble
 import SwcVerif.Model.AlgoRunLMeasure
+import SwcVerif.Model.AlgoRunNodeBranch
 /-! all runners of generated definitions (imported by the root module only; the driver imports them one by one) -/
